@@ -214,3 +214,89 @@ func (s *Session) SuccOf(id uint64) (uint64, bool) {
 	}
 	return l[0].ID(), true
 }
+
+// Quiet emits the quiescent-point line `quiet => ok | dump` (placement is judged there).
+func (s *Session) Quiet() {
+	if s.Dead {
+		return
+	}
+	s.Run.Emit("quiet", "ok | "+s.R.Dump())
+}
+
+// Churn runs one churn history: KV operations through random entry nodes interleaved with
+// graceful joins and leaves and repair rounds; ends with a repair to a fixpoint, a quiescent
+// point and reads of every key through every member.
+func (s *Session) Churn(nNodes, nSpare, steps int) {
+	rng := s.Rng
+	for _, k := range KeyTokens {
+		s.Run.Raw("defkey " + k + " " + U(HashOf(k)))
+	}
+	ids := AdversarialIDs(rng, nNodes+nSpare)
+	// a third of the time place node ids exactly on / next to key hashes (boundary ownership)
+	if rng.Chance(35) {
+		for i := range ids {
+			if rng.Chance(50) {
+				h := HashOf(Pick(rng, KeyTokens))
+				cand := (h + uint64(rng.Intn(3)) + M - 1) % M
+				dup := false
+				for _, x := range ids {
+					if x == cand {
+						dup = true
+					}
+				}
+				if !dup {
+					ids[i] = cand
+				}
+			}
+		}
+	}
+	members := s.BuildRing(ids[:nNodes])
+	spare := append([]uint64{}, ids[nNodes:]...)
+	for _, j := range spare {
+		s.Do("new", U(j))
+	}
+	s.Repair(members, 6)
+	for i := 0; i < steps && !s.Dead; i++ {
+		switch x := rng.Intn(100); {
+		case x < 62:
+			s.KvOp(members)
+		case x < 72 && len(spare) > 0:
+			s.Repair(members, 3) // membership changes are issued on a repaired ring (a failing attempt would sleep in its retry loop)
+			j := spare[0]
+			if s.Do("join", U(j), U(Pick(rng, members))) == "ok" {
+				members = append(members, j)
+			}
+			spare = spare[1:]
+		case x < 82 && len(members) > 1:
+			s.Repair(members, 3)
+			l := Pick(rng, members)
+			if s.Do("leave", U(l)) == "ok" {
+				var rest []uint64
+				for _, m := range members {
+					if m != l {
+						rest = append(rest, m)
+					}
+				}
+				members = rest
+			}
+		case x < 90:
+			s.Repair(members, 1)
+		default:
+			s.KvOp(members)
+		}
+	}
+	s.Repair(members, 8)
+	s.Quiet()
+	for _, k := range KeyTokens {
+		for _, m := range members {
+			s.Do("get", U(m), k, U(HashOf(k)))
+			if rng.Chance(40) {
+				s.Do("plist", U(m), k, U(HashOf(k)))
+			}
+		}
+	}
+	s.Run.Count(F("final-members:%d", len(members)))
+}
+
+func Pick[T any](r *hlib.Rng, xs []T) T { return hlib.Pick(r, xs) }
+func F(format string, a ...any) string  { return hlib.F(format, a...) }
